@@ -22,6 +22,7 @@ type Stats struct {
 	Steps         int               `json:"steps"`
 	MaxDevs       int               `json:"max_deviations_completed"`
 	Diverged      int               `json:"diverged_discarded"`
+	Abandoned     int               `json:"abandoned_bubbles"`
 	ReplayChecks  int               `json:"replay_checks"`
 	StepCaps      int               `json:"step_caps"`
 	Incomplete    []string          `json:"incomplete,omitempty"`
@@ -83,7 +84,13 @@ type Explorer struct {
 	// Globals are oracles applied to every execution of every scenario.
 	Globals []func(sc *Scenario, w *World, x *Exec) []Violation
 	Verbose bool
+	// abandonedHere counts hung executions of the scenario being explored; each leaks
+	// its goroutines, so a scenario that hangs over and over is cut short (its violation
+	// has been recorded by then) and reported as not exhaustive.
+	abandonedHere int
 }
+
+const maxAbandonedPerScenario = 400
 
 func (e *Explorer) expired() bool { return !e.Deadline.IsZero() && time.Now().After(e.Deadline) }
 
@@ -98,8 +105,9 @@ func (e *Explorer) Explore(sc *Scenario, shardSubtrees bool) bool {
 	complete := true
 	ord := 0
 	var rec func(prefix []int, expect [][]string, devs int)
+	e.abandonedHere = 0
 	rec = func(prefix []int, expect [][]string, devs int) {
-		if e.expired() {
+		if e.expired() || e.abandonedHere > maxAbandonedPerScenario {
 			complete = false
 			return
 		}
@@ -131,7 +139,7 @@ func (e *Explorer) Explore(sc *Scenario, shardSubtrees bool) bool {
 				}
 				np := append(append([]int{}, choices[:i]...), alt)
 				rec(np, names[:i+1], devs+1)
-				if e.expired() {
+				if e.expired() || e.abandonedHere > maxAbandonedPerScenario {
 					complete = false
 					return
 				}
@@ -178,6 +186,10 @@ func (e *Explorer) judge(sc *Scenario, x *Exec) []Violation {
 
 func (e *Explorer) account(sc *Scenario, x *Exec, devs int) {
 	st := e.St
+	if x.Abandoned {
+		st.Abandoned++
+		e.abandonedHere++
+	}
 	st.Executions++
 	st.Steps += x.Steps
 	st.ByBound[devs]++
